@@ -112,6 +112,7 @@ type EnumValue struct {
 	Name string
 	Num  int32
 	JSON *string // sebuf.http.enum_value
+	Comment string
 }
 
 // EnumDef is an enum definition.
@@ -223,6 +224,7 @@ func FE(name string, num int32, typeName string) *Field {
 	return &Field{Name: name, Num: num, Type: Enum, TypeName: typeName}
 }
 
+func (f *Field) Doc(c string) *Field     { f.Comment = c; return f }
 func (f *Field) Opt() *Field             { f.Card = Optional; return f }
 func (f *Field) Rep() *Field             { f.Card = Repeated; return f }
 func (f *Field) MapOf(key T) *Field      { f.Card = Map; f.MapKey = key; return f }
